@@ -4,7 +4,7 @@ import json, subprocess, os
 
 CLAIMED = {
  "C17": dict(
-   text="Every function of package matrix is under contract; its postconditions (constructors equal the CSS Transforms / doc-comment matrices, mult is composition of the two maps, Invert is a two-sided inverse when det != 0 and leaves T unchanged otherwise, in-place Translate/Scale/Rotate/Skew equal right multiplication) and the group-law lemmas are proved for all real inputs by SMT (QF_NRA). Floats are treated as reals.",
+   text="Every function of package matrix is under contract; its postconditions (constructors equal the CSS Transforms / doc-comment matrices, mult is composition of the two maps, Invert is a two-sided inverse when det != 0 and leaves T unchanged otherwise, in-place Translate/Scale/Rotate/Skew equal right multiplication) and the group-law lemmas are proved for all real inputs by SMT (QF_NRA). The two producers are under contract as well: document.getMatrix (each CSS transform function right-multiplies by the matrix CSS Transforms defines, percentages of translate resolved against the border box width / height, transform-origin conjugation), svg transform.applyTo / aggregateTransforms / Value.Resolve, and svg.parseTransform (the kind and argument slots stored for each SVG transform function: skewX(a) = skew(a,0), skewY(a) = skew(0,a), scale(s) = scale(s,s), translate(x) = translate(x,0), rotate with and without centre, matrix). Floats are treated as reals.",
    note="float-as-real; math.Tan/Sin/Cos uninterpreted; VC generator and go/ssa trusted; CSS/SVG call sites (getMatrix, parseTransform) see evidence for what is under contract",
    ref="DESIGN.md §4 C17"),
 }
@@ -19,16 +19,16 @@ CLAIMED["C10"] = dict(
    note="float-as-real; interface dispatch of MaybeFloat.V and Box.Box() by assumed (listed) interface contracts; style accessors assumed pure; only the listed kernels are verified, not the layout recursion around them",
    ref="DESIGN.md §4 C10")
 CLAIMED["C11"] = dict(
-   text="Only the alignment kernel is decided: textAlign is under contract (offset 0 when the line does not fit or for start/justify, (available-width)/2 for center, available-width for end, left/right mapped through direction, text-align-last on the last line) and proved for all inputs. inlineBoxVerticality keeps running extrema (every assignment raises maxY / lowers minY: a line box is as tall as its contents, nested inline contents cannot shrink it). Greedy line fitting in the text engines is out of reach and NOT claimed.",
+   text="Only the alignment kernel is decided: textAlign is under contract (offset 0 when the line does not fit or for start/justify, (available-width)/2 for center, available-width for end, left/right mapped through direction, text-align-last on the last line) and proved for all inputs. inlineBoxVerticality keeps running extrema (every assignment raises maxY / lowers minY: a line box is as tall as its contents, nested inline contents cannot shrink it). lineBoxVerticality measures every top/bottom-aligned sub-tree it collects, including those found while measuring another one (loop exit obligation). Greedy line fitting in the text engines is out of reach and NOT claimed.",
    note="float-as-real; style accessors assumed pure functions of the style; justifyLine/logger calls havoc the heap (the function claims no frame); splitFirstLine and the shaping engines unverified",
    ref="DESIGN.md §4 C11")
 CLAIMED["C12"] = dict(
-   text="Page geometry and break classification kernels are under contract and proved: pageWidthOrHeight (css-page-3 page-box equation margin+padding/border+inner+margin == containing block whenever something was auto, equal auto margins, given values kept) as call-site assertions at the write-back, overflowsPage (exact formula, monotone in y), forcePageBreak / avoidPageBreak value sets. remakePage page-type selection, pageTypeMatch (:nth(an+b) sound and complete) and blockLevelPageName (a break is forced when the name the previous sibling ENDS on differs from the name the next one STARTS on) are under contract too. blockLevelPageBreak, orphans/widows and the 'never below the page' part are NOT under contract.",
+   text="Page geometry and break classification kernels are under contract and proved: pageWidthOrHeight (css-page-3 page-box equation margin+padding/border+inner+margin == containing block whenever something was auto, equal auto margins, given values kept) as call-site assertions at the write-back, overflowsPage (exact formula, monotone in y), forcePageBreak / avoidPageBreak value sets. remakePage page-type selection, pageTypeMatch (:nth(an+b) sound and complete) and blockLevelPageName (a break is forced when the name the previous sibling ENDS on differs from the name the next one STARTS on) are under contract too. blockLevelPageBreak folds the break-after / break-before values met at a boundary keeping the strongest at every step (side value > page/column > avoid* > auto; `loop step` obligation). Orphans/widows and the 'never below the page' part are NOT under contract.",
    note="float-as-real; orientedBoxITF.baseBox assumed pure/non-nil; restoreBoxAttributes unverified (interface call, havoc)",
    ref="DESIGN.md §4 C12")
 
 CLAIMED["C06"] = dict(
-   text="css/parser tokenizer.go and parser.go are under contract (55 functions, ~1400 obligations): every index/slice/nil/type-assertion is safe for all byte inputs, every loop and the recursion of consumeValueList terminate (measure len-pos: each step consumes >= 1 byte, which needs the proved NUL-free invariant established by Tokenize), the ident-start / name-start predicates equal the CSS Syntax 3 definitions, and error recovery is exact: a nested value list ends at EOF or just after its own closing delimiter, consumeRemnants / declarations / at-rules / qualified rules stop just after the FIRST top-level ';' or {} block (quantified over the skipped tokens). parseDeclaration recognises `!important` as CSS Syntax 3 §5.4.6 says (white space and comments do not leave the state). Token VALUES (escape decoding, numbers, string building) and colors.go are NOT decided.",
+   text="css/parser tokenizer.go and parser.go are under contract (55 functions, ~1400 obligations): every index/slice/nil/type-assertion is safe for all byte inputs, every loop and the recursion of consumeValueList terminate (measure len-pos: each step consumes >= 1 byte, which needs the proved NUL-free invariant established by Tokenize), the ident-start / name-start predicates equal the CSS Syntax 3 definitions, and error recovery is exact: a nested value list ends at EOF or just after its own closing delimiter, consumeRemnants / declarations / at-rules / qualified rules stop just after the FIRST top-level ';' or {} block (quantified over the skipped tokens). parseDeclaration recognises `!important` as CSS Syntax 3 §5.4.6 says (white space and comments do not leave the state). The two regular expressions the tokenizer relies on (number, hex escape) are ASSUMED from their source text; a BOUNDED enumeration (7.7 M byte strings up to length 8, labelled bounded, not counted as proved) compares them with hand-written CSS Syntax matchers. Token VALUES (escape decoding, numbers, string building) and colors.go are NOT decided.",
    note="assumed extern contracts: utf8.DecodeRune, bytes.HasPrefix/Index/LastIndexByte/Count/ReplaceAll, strings.ContainsRune, strings.Builder, strconv, the two anchored regexps of the package; Token.Kind/Pos assumed pure; machine-int-as-math",
    ref="DESIGN.md §4 C06")
 
@@ -38,12 +38,12 @@ CLAIMED["C20"] = dict(
    ref="DESIGN.md §4 C20")
 
 CLAIMED["C03"] = dict(
-   text="The ordering machinery of the cascade is under contract and proved: declarationPrecedence is the CSS table ua < user < author < author! < user!; Specificity.Less/Add are lexicographic order and component sum; weight.Less is the non-strict lexicographic order on (precedence, specificity) (lemmas: total, transitive, reflexive, so later declarations win ties); at both insertion sites of newStyleFor the stored weight is (declarationPrecedence(origin, important), specificity) and a slot is replaced only when empty or when the new weight is >= the old one; evaluateMediaQuery matches `all` or the device type; presentational hints get specificity (0,0,0); matcher.match reports EVERY matching selector of every rule with its own specificity, pseudo-element and declarations (completeness proved with nested loop invariants). The clause 'a style attribute outranks every selector' FAILS on the real code and is recorded as a known finding (style attributes get (1,0,0)). Selector matching (C05), @import/nested rules and addPageDeclarations are NOT under contract.",
+   text="The ordering machinery of the cascade is under contract and proved: declarationPrecedence is the CSS table ua < user < author < author! < user!; Specificity.Less/Add are lexicographic order and component sum; weight.Less is the non-strict lexicographic order on (precedence, specificity) (lemmas: total, transitive, reflexive, so later declarations win ties); at both insertion sites of newStyleFor the stored weight is (declarationPrecedence(origin, important), specificity) and a slot is replaced only when empty or when the new weight is >= the old one; evaluateMediaQuery matches `all` or the device type; presentational hints get specificity (0,0,0); matcher.match reports EVERY matching selector of every rule with its own specificity, pseudo-element and declarations (completeness proved with nested loop invariants); GetAllComputedStyles passes newStyleFor a sheet list in which only user-agent sheets precede the presentational-hint sheet, so hints come before every author sheet in order of appearance (findStylesheets trusted for its frame). The clause 'a style attribute outranks every selector' FAILS on the real code and is recorded as a known finding (style attributes get (1,0,0)). Selector matching (C05), @import/nested rules and addPageDeclarations are NOT under contract.",
    note="known finding recorded in known_findings.txt; newStyleFor/findStyleAttributes are checked only at the listed call/map-update sites (their other obligations are unclaimed: havoc abstraction of maps, iterators and unknown callees); machine-int-as-math",
    ref="DESIGN.md §4 C03")
 
 CLAIMED["C18"] = dict(
-   text="The SVG path-data interpreter is under contract and proved for all argument lists: every command method of pathParser (moveTo/lineTo incl. implicit repetition, H/V, C/S/Q/T with smooth reflection, closepath, arcs) appends exactly the segments SVG 1.1 §8.3 defines, absolute vs relative, with the current point / sub-path start / last control point bookkeeping as representation invariants across argument groups; quadraticToCubic is degree elevation (Bezier identity lemma for all t); reflection is point reflection; an arc segment ends at the given end point and successive arc groups start where the previous one ended; consumeNumber/parsePoints accept the SVG number grammar without panicking and always make progress; the control point remembered after Q and C is the last one drawn; a gradient/pattern href is consumed before the referenced element is processed, and svg.Parse returns on every href graph over three definitions (BOUNDED enumeration, 125 graphs incl. cycles). Basic-shape outlines, viewBox/preserveAspectRatio mapping and reference-cycle handling are NOT under contract; the arc's 'lies on the given ellipse' clause is decided only for the end points (centre parameterisation uses sqrt/atan2, uninterpreted).",
+   text="The SVG path-data interpreter is under contract and proved for all argument lists: every command method of pathParser (moveTo/lineTo incl. implicit repetition, H/V, C/S/Q/T with smooth reflection, closepath, arcs) appends exactly the segments SVG 1.1 §8.3 defines, absolute vs relative, with the current point / sub-path start / last control point bookkeeping as representation invariants across argument groups; quadraticToCubic is degree elevation (Bezier identity lemma for all t); reflection is point reflection; an arc segment ends at the given end point and successive arc groups start where the previous one ended; consumeNumber/parsePoints accept the SVG number grammar without panicking and always make progress; the control point remembered after Q and C is the last one drawn; findEllipseCenter scales too-small radii up keeping their ratio and never shrinks them; a gradient/pattern href is consumed before the referenced element is processed, and svg.Parse returns on every href graph over three definitions (BOUNDED enumeration, 125 graphs incl. cycles). Basic-shape outlines, viewBox/preserveAspectRatio mapping and reference-cycle handling are NOT under contract; the arc's 'lies on the given ellipse' clause is decided only for the end points (centre parameterisation uses sqrt/atan2, uninterpreted).",
    note="float-as-real; strconv.ParseFloat, math.Sqrt/Atan2/Sin/Cos assumed (extern/uninterpreted); drawing back end calls are not under contract (the proved object is the segment list the parser builds); machine-int-as-math",
    ref="DESIGN.md §4 C18")
 
@@ -68,7 +68,7 @@ CLAIMED["C08"] = dict(
    ref="DESIGN.md §4 C08")
 
 CLAIMED["C13"] = dict(
-   text="Width clauses of the table property are under contract and proved for all inputs: fixedTableLayout ends with table.Width == sum(table.ColumnWidths) + border-spacing*(columns+1) whenever the table has a column — 'the columns plus spacing exactly fill the table's used width' — by loop invariants over the mathematical sum of a slice (the excess is shared equally, or the table is widened to its columns), and the layout helper sum() returns that sum; autoTableLayout leaves the used width >= the table's minimum content width on every path (auto and specified widths, excess reduction). 'No two cells on the same grid slot' FAILS on the real code (wrapTable checks only the first slot: recorded as a known finding with its input). NOT under contract: shared column edges and row heights, rowspan resolution, border-spacing positions (tableLayout), the column width distribution of the automatic layout (sum of the distributed widths), non-negative sizes.",
+   text="Width clauses of the table property are under contract and proved for all inputs: fixedTableLayout ends with table.Width == sum(table.ColumnWidths) + border-spacing*(columns+1) whenever the table has a column — 'the columns plus spacing exactly fill the table's used width' — by loop invariants over the mathematical sum of a slice (the excess is shared equally, or the table is widened to its columns), and the layout helper sum() returns that sum; autoTableLayout leaves the used width >= the table's minimum content width on every path (auto and specified widths, excess reduction). When the automatic layout has to 'break the rules' the undistributed excess is shared equally among the columns that have cells (share x number of receivers == excess); distributeExcessWidth never divides by a zero percentage total. 'No two cells on the same grid slot' FAILS on the real code (wrapTable checks only the first slot: recorded as a known finding with its input). NOT under contract: shared column edges and row heights, rowspan resolution, border-spacing positions (tableLayout), the column width distribution of the automatic layout (sum of the distributed widths), non-negative sizes.",
    note="float-as-real; the sum of a slice is an uninterpreted function whose defining equations are instantiated per occurrence (engine/sumtheory.go); MaybeFloat.V dispatch assumed; tableAndColumnsPreferredWidths trusted to return min-content <= max-content; distributeExcessWidth trusted to write only the column widths; loops havoc the whole heap (modifies anything) and the invariants restate what is needed",
    ref="DESIGN.md §4 C13")
 
@@ -78,7 +78,7 @@ CLAIMED["C14"] = dict(
    ref="DESIGN.md §4 C14")
 
 CLAIMED["C01"] = dict(
-   text="PARTIAL by construction: 'rendering any document terminates without crashing' is a whole-program property; what is decided here is panic-freedom and termination, for all inputs, of the components that are under contract as nopanic with loop/recursion measures and that every rendering goes through: the CSS tokenizer and rule parsers, the selector parser, the SVG path/number parsers, the counter-style algorithms, the bookmark outline builder (its internal consistency panic is unreachable), plus: NewHTML always returns an element node as document root or an error (defect found and fixed: a comment before <html> became the root), and var() substitution terminates on every custom-property graph (bounded enumeration; two fatal stack-overflow defects found and fixed). The recursive layout engine (blocks, inlines, tables, flex, grid, pagination loops), box building, drawing and the text back end are NOT under contract: their termination and panic-freedom are not decided by this check.",
+   text="PARTIAL by construction: 'rendering any document terminates without crashing' is a whole-program property; what is decided here is panic-freedom and termination, for all inputs, of the components that are under contract as nopanic with loop/recursion measures and that every rendering goes through: the CSS tokenizer and rule parsers, the selector parser, the SVG path/number parsers, the counter-style algorithms, the bookmark outline builder (its internal consistency panic is unreachable), plus: NewHTML always returns an element node as document root or an error (defect found and fixed: a comment before <html> became the root), and var() substitution terminates on every custom-property graph (bounded enumeration; two fatal stack-overflow defects found and fixed); svg gradient/pattern href graphs and counter-style fallback/extends graphs terminate (bounded enumerations); in box building, UpdateCounters leaves every counter it resets, sets or increments with an innermost instance (the non-empty value stack the scope pops rely on). The recursive layout engine (blocks, inlines, tables, flex, grid, pagination loops), the rest of box building, drawing and the text back end are NOT under contract: their termination and panic-freedom are not decided by this check.",
    note="everything listed under C06, C07, C14, C18, C19 applies; stack depth of recursion is not modelled; machine-int-as-math; unknown callees are assumed to return",
    ref="DESIGN.md §4 C01")
 
